@@ -23,6 +23,7 @@ import numpy as np
 from ai_edge_quantizer import qtyping
 from ai_edge_quantizer import transformation_instruction_generator
 from ai_edge_quantizer import transformation_performer
+from ai_edge_quantizer.utils import tfl_flatbuffer_utils
 from ai_edge_litert import schema_py_generated  # pylint: disable=g-direct-tensorflow-import
 from tensorflow.lite.tools import flatbuffer_utils  # pylint: disable=g-direct-tensorflow-import
 
@@ -60,7 +61,7 @@ class ModelModifier:
       a byte buffer that represents the serialized tflite model
     """
     quantized_model = copy.deepcopy(
-        flatbuffer_utils.read_model_from_bytearray(self._model_content)
+        tfl_flatbuffer_utils.read_model(self._model_content)
     )
 
     instructions = self._transformation_instruction_generator.quant_params_to_transformation_insts(
